@@ -5,6 +5,7 @@ import (
 	"reflect"
 	"sort"
 	"strings"
+	"unsafe"
 
 	mocker "github.com/tencent/goom"
 	"github.com/tencent/goom/erro"
@@ -15,6 +16,7 @@ import (
 	"github.com/tencent/goom/verifsim/val"
 	"github.com/tencent/goom/verifsim/world"
 	"github.com/tencent/goom/verifsim/zoo/fn"
+	"github.com/tencent/goom/verifsim/zoo/ifc"
 	"github.com/tencent/goom/verifsim/zoo/thunk"
 )
 
@@ -84,7 +86,7 @@ func (x *Exec) how(ti int) int {
 	for _, op := range x.Ops {
 		if op.T == ti {
 			switch op.K {
-			case "apply", "ret", "when", "cancel":
+			case "apply", "ret", "retseq", "when", "cancel":
 				return op.N
 			}
 		}
@@ -147,7 +149,7 @@ func (x *Exec) at() string {
 
 func opString(op world.Op) string {
 	name := ""
-	if op.K != "reset" && op.K != "gc" && op.K != "grow" && op.K != "dropref" && op.K != "log" && op.K != "checkall" && op.T < len(Targets) {
+	if op.K != "reset" && op.K != "gc" && op.K != "grow" && op.K != "dropref" && op.K != "log" && op.K != "checkall" && op.K != "pkg" && op.T < len(Targets) {
 		name = " " + shortName(Targets[op.T].Name)
 	}
 	return fmt.Sprintf("%s b%d%s f%d n%d", op.K, op.B, name, op.F, op.N)
@@ -243,7 +245,7 @@ func (x *Exec) callTarget(ti, form int, argSeed uint64, hit bool) {
 		if pv != nil {
 			x.fail("behaviour/orig-panic", "un-mocked %s panicked: %v", t.Name, pv)
 		}
-		if ran != 1 {
+		if ran != 1 && !t.NoRan {
 			x.fail("behaviour/orig-not-run", "un-mocked %s: original body ran %d times for one call", t.Name, ran)
 		}
 		if !noRes && !val.SameList(got, t.Ref(args), false) {
@@ -254,7 +256,7 @@ func (x *Exec) callTarget(ti, form int, argSeed uint64, hit bool) {
 			x.fail("behaviour/cb-panic", "mocked %s panicked: %v", t.Name, pv)
 		}
 		calls, seen, _ := s.rec.Snapshot()
-		if ran != 0 {
+		if ran != 0 && !t.NoRan {
 			x.fail("behaviour/orig-ran", "mocked %s: the original body ran (%d times) although a callback is applied", t.Name, ran)
 		}
 		if calls != 1 {
@@ -273,7 +275,7 @@ func (x *Exec) callTarget(ti, form int, argSeed uint64, hit bool) {
 		calls, seen, ores := s.rec.Snapshot()
 		want := t.Ref(args)
 		depth := s.rec.GetMaxDepth()
-		if calls == 2 && depth == 2 && ran == 1 && x.env.Known["S1"] && val.SameList(seen, args, true) && val.SameList(ores, want, false) {
+		if calls == 2 && depth == 2 && (ran == 1 || t.NoRan) && x.env.Known["S1"] && val.SameList(seen, args, true) && val.SameList(ores, want, false) {
 			// open known finding S1: the relocated stack check failed (low headroom or a pending
 			// preemption request) and the slow path re-entered the mock once before succeeding
 			x.env.UseKnown("S1")
@@ -285,7 +287,7 @@ func (x *Exec) callTarget(ti, form int, argSeed uint64, hit bool) {
 		if !val.SameList(seen, args, true) {
 			x.fail("behaviour/cb-args", "mocked %s: origin callback saw %s, caller passed %s", t.Name, val.ShowList(seen), val.ShowList(args))
 		}
-		if ran != 1 {
+		if ran != 1 && !t.NoRan {
 			x.fail("origin/not-run", "mocked %s: original body ran %d times through the origin placeholder", t.Name, ran)
 		}
 		if !val.SameList(ores, want, false) {
@@ -303,7 +305,7 @@ func (x *Exec) callTarget(ti, form int, argSeed uint64, hit bool) {
 			margs = expandVariadic(margs)
 		}
 		out := s.stub.Call(margs)
-		if ran != 0 {
+		if ran != 0 && !t.NoRan {
 			x.fail("behaviour/orig-ran", "stubbed %s: the original body ran (%d times)", t.Name, ran)
 		}
 		if out.Panic {
@@ -509,6 +511,30 @@ func (x *Exec) step(op world.Op) {
 		s.stub = &model.Stub{HasResults: t.Typ.NumOut() > 0, Eq: func(p, a interface{}) bool { return val.Same(p, a, false) }}
 		s.stub.Default = [][]interface{}{res}
 		x.env.T("ret %s %s", shortName(t.Name), val.ShowList(res))
+	case "retseq":
+		// Returns(v1..vn): a default sequence; every call advances it until it sticks at vn
+		t := Targets[op.T]
+		s := x.state(op.T)
+		n := 2 + int(op.W%3)
+		r := rng.Derive(op.V, 25)
+		var seq [][]interface{}
+		var vals []interface{}
+		for i := 0; i < n; i++ {
+			res := val.GenResults(r, t.Typ)
+			seq = append(seq, res)
+			if len(res) == 1 {
+				vals = append(vals, res[0])
+			} else {
+				vals = append(vals, res)
+			}
+		}
+		t.Lookup(x.builder(op.B), op.N).Returns(vals...)
+		s.owner, s.kind, s.rec = op.B, kStub, nil
+		s.skipRecv = t.SkipRecv != nil && t.SkipRecv(op.N)
+		s.stub = &model.Stub{HasResults: true, Eq: func(p, a interface{}) bool { return val.Same(p, a, false) }}
+		s.stub.Default = seq
+		x.env.T("retseq %s n=%d", shortName(t.Name), n)
+		x.env.Probe("result_sequence_configured")
 	case "when":
 		t := Targets[op.T]
 		s := x.state(op.T)
@@ -610,7 +636,7 @@ func (x *Exec) step(op world.Op) {
 	x.checkImage()
 	// behaviour of the touched target right after the step
 	switch op.K {
-	case "apply", "ret", "when", "cancel", "bad":
+	case "apply", "ret", "retseq", "when", "cancel", "bad":
 		x.callTarget(op.T, int(op.W%3), op.W^0x5bd1e995, op.K == "when")
 		// no other method of the same type may be affected
 		for i, sb := range Targets[op.T].Siblings {
@@ -745,6 +771,46 @@ func (x *Exec) bad(op world.Op) {
 			}
 		}
 		f = func() { t.Lookup(b, x.how(op.T)).Returns(seq...) }
+	case 12, 13:
+		// interface mocks: a callback that does not fit (the one place with a real cause chain)
+		it := ifc.Ifaces[r.Intn(len(ifc.Ifaces))]
+		vi := r.Intn(len(it.Vars))
+		m := it.Methods[r.Intn(len(it.Methods))]
+		before := *(*[2]uintptr)(unsafe.Pointer(reflect.ValueOf(it.Vars[vi]).Pointer()))
+		var cb interface{}
+		if op.N == 12 {
+			desc = "Interface(&v).Method(m).Apply(callback whose first parameter is not *IContext)"
+			cb = func(a int) int { return a }
+		} else {
+			desc = "Interface(&v).Method(m).Apply(callback with too few parameters)"
+			if m.Typ.NumIn() < 2 {
+				return
+			}
+			// drop the last parameter of the method's replacement type
+			ins := make([]reflect.Type, 0, m.Typ.NumIn()-1)
+			for i := 0; i < m.Typ.NumIn()-1; i++ {
+				ins = append(ins, m.Typ.In(i))
+			}
+			outs := make([]reflect.Type, m.Typ.NumOut())
+			for i := range outs {
+				outs[i] = m.Typ.Out(i)
+			}
+			cb = reflect.MakeFunc(reflect.FuncOf(ins, outs, false), func([]reflect.Value) []reflect.Value {
+				res := make([]reflect.Value, len(outs))
+				for i := range res {
+					res[i] = reflect.Zero(outs[i])
+				}
+				return res
+			}).Interface()
+		}
+		ib := mocker.Create() // its own builder: the variable must stay untouched, nothing to reset
+		f = func() { ib.Interface(it.Vars[vi]).Method(m.Name).Apply(cb) }
+		defer func() {
+			after := *(*[2]uintptr)(unsafe.Pointer(reflect.ValueOf(it.Vars[vi]).Pointer()))
+			if after != before {
+				x.fail("reject/iface-var-changed", "%s on %s.%s was rejected but the variable changed: %x -> %x", desc, it.Name, m.Name, before, after)
+			}
+		}()
 	case 7:
 		desc = "ExportFunc(unknown symbol).Apply"
 		cb := t.MkCb(&thunk.Rec{})
